@@ -191,6 +191,8 @@ class _ExprNF(ast.NodeTransformer):
         self.generic_visit(n)
         if isinstance(n.op, ast.Not):
             o = n.operand
+            if isinstance(o, ast.Constant) and isinstance(o.value, bool) and "E19" not in _SKIP:
+                return ast.copy_location(ast.Constant(value=not o.value), n)
             if isinstance(o, ast.Compare) and len(o.ops) == 1 and type(o.ops[0]) in (ast.Is, ast.IsNot, ast.Eq, ast.NotEq, ast.In, ast.NotIn):
                 return self._neg(o)
             if isinstance(o, ast.BoolOp):
@@ -210,6 +212,16 @@ class _ExprNF(ast.NodeTransformer):
     def visit_If(self, n):
         self.generic_visit(n)
         n.test = self._strip_double_not(n.test)   # `if not not x:` tests the truth of x, like `if x:`
+        if isinstance(n.test, ast.Constant) and isinstance(n.test.value, bool) and "E19" not in _SKIP:
+            # E19: a test folded to a constant (left behind when the inliner substitutes a defaulted parameter)
+            taken = n.body if n.test.value else n.orelse
+            return taken if taken else ast.copy_location(ast.Pass(), n)
+        return n
+
+    def visit_IfExp(self, n):
+        self.generic_visit(n)
+        if isinstance(n.test, ast.Constant) and isinstance(n.test.value, bool) and "E19" not in _SKIP:
+            return n.body if n.test.value else n.orelse
         return n
 
     def visit_While(self, n):
@@ -219,6 +231,19 @@ class _ExprNF(ast.NodeTransformer):
 
     def visit_Compare(self, n):
         self.generic_visit(n)
+        if len(n.ops) == 1 and isinstance(n.left, ast.Constant) and isinstance(n.comparators[0], ast.Constant) and "E19" not in _SKIP:
+            # E19: a comparison of two literals (None / bool / number / string) has one value
+            a, b, op = n.left.value, n.comparators[0].value, n.ops[0]
+            simple = lambda v: v is None or isinstance(v, (bool, int, str, bytes))
+            if simple(a) and simple(b):
+                same_kind = type(a) is type(b)
+                val = None
+                if isinstance(op, (ast.Is, ast.IsNot)) and (a is None or b is None or isinstance(a, bool) and isinstance(b, bool)):
+                    val = (a is b) if isinstance(op, ast.Is) else (a is not b)
+                elif isinstance(op, (ast.Eq, ast.NotEq)) and (same_kind or a is None or b is None):
+                    val = (a == b) if isinstance(op, ast.Eq) else (a != b)
+                if val is not None:
+                    return ast.copy_location(ast.Constant(value=val), n)
         if len(n.ops) == 1 and type(n.ops[0]) in self.FLIP and isinstance(n.left, ast.Constant) and not isinstance(n.comparators[0], ast.Constant):
             return ast.copy_location(ast.Compare(left=n.comparators[0], ops=[self.FLIP[type(n.ops[0])]()], comparators=[n.left]), n)
         return n
